@@ -3,7 +3,7 @@ from props import S
 CFG = {
     "properties_file": "Properties/C17.v",
     "corr_files": ["Corr/C17.v"],
-    "streams": [S("C17", "drive_lts", 120, 2500, race=True)],
+    "streams": [S("C17", "drive_lts", 100, 2500, race=True)],
     "rule": "seeded schedules on a server created by AbsfsNFS.Export over loopback TCP, MaxConnections in {1,2,3,5}, IdleTimeout in "
             "{40,60 ms,1 h} on the virtual clock (reaper ticker real): exact part = 5-16 sequential client actions (open 40%, open "
             "from a filtered address, use, close, advance the clock by 0.25-3x the timeout incl. exactly the timeout + reaper "
